@@ -180,6 +180,8 @@ def gen_specs(seed, tier):
         k = 0
         while k < per_rule:
             n = rnd.randint(2, 4)
+            if k % 3 == 1:
+                n = 2  # with the unmentioned candidate below: c = 3, where 1/(c-1) matters most
             cands = names[:n]
             bl = []
             for _ in range(rnd.randint(2, 5)):
@@ -191,6 +193,10 @@ def gen_specs(seed, tier):
                 w = rnd.choice([1, 1, 2, 3, 5, "1/2", "7/3"])
                 bl.append({"r": r, "w": w})
             m = rnd.randint(1, min(3, n))
+            if k % 3 == 1:
+                # a declared candidate who appears on no ballot (counts among the c remaining
+                # candidates of the boosted rule, never wins)
+                cands = cands + ["Z"]
             if k == 0:
                 # the first parameter set of each rule always has a ballot with a tie for first place
                 perm = cands[:]
